@@ -14,7 +14,12 @@
 //	(c) self-consistent encodings whose data array / height map has the wrong size;
 //	(d) JSON text: every sequence of <= N tokens (quick 5, thorough 6) over a 13-token alphabet;
 //	(e) the command dispatcher: every command line of length <= M (quick 6, thorough 8) over
-//	    {a,b,",\,space,tab} x a family of 30 command graphs.
+//	    {a,b,",\,space,tab} x a family of 25 command graphs; (e2) every line of <= MW symbols
+//	    (quick 4, thorough 6) over {a,b,",\,space,X} that contains X, for every X of a menu of 39
+//	    blanks (all of Unicode White_Space), controls, look-alikes, multi-byte letters and
+//	    malformed UTF-8 sequences (command.go);
+//	(f) inflated bodies behind a sound zlib stream; (g) decode histories on one destination
+//	    (reuse.go); (h) declared-length sweeps (sweep.go).
 //
 // Oracle: the call returns (value or error): no panic, no call running > 20 s; and when the
 // check itself wrote a negative length, a length the rest of the input cannot satisfy, or a
@@ -64,6 +69,7 @@ type Case struct {
 	SiteOff int      `json:"site_off"` // offset of the length prefix the check wrote, -1 none
 	Graph   string   `json:"graph,omitempty"`
 	Line    string   `json:"line,omitempty"`
+	LineHex string   `json:"line_hex,omitempty"` // command: the bytes of the line (authoritative when present)
 }
 
 func caseJSON(c Case) string { b, _ := json.Marshal(c); return string(b) }
@@ -515,7 +521,7 @@ func famJSON(N int) []func(slot int) {
 
 func main() {
 	rep = engine.NewReport("C08")
-	rep.Rule = "per decoder: (a) every byte string of length <= L over {00,01,02,0a,7f,80,ff}; (b) every truncation, single-byte substitution (same alphabet) and length-prefix overwrite of every seed encoding; (c) self-consistent wrong-size data arrays / height maps; (d) every JSON token sequence of <= N tokens; (e) every command line of length <= M over {a,b,\",\\,space,tab} x every command graph. distinct = distinct (decoder, bytes, written-site) triples: (a),(d),(e) are injective enumerations, (b)/(c) are deduplicated by an exact set per decoder and against (a); non-trivial = all (every input is handed to the decoder, from a bytes.Reader and from a plain io.Reader)"
+	rep.Rule = "per decoder: (a) every byte string of length <= L over {00,01,02,0a,7f,80,ff}; (b) every truncation, single-byte substitution (same alphabet) and length-prefix overwrite of every seed encoding; (c) self-consistent wrong-size data arrays / height maps; (d) every JSON token sequence of <= N tokens; (e) every command line of length <= M over {a,b,\",\\,space,tab} x every command graph, (e2) every line of <= MW symbols over {a,b,\",\\,space,X} containing X, for every X of a menu of blanks, controls, multi-byte and malformed UTF-8 sequences; (g) every ordered pair (thorough: triple) of inputs decoded into one destination; (h) every declared length of a sweep menu for every length-prefixed leaf (full / no / short body) and every located prefix of every small seed rewritten with every n <= N2 (counted as evaluations only, not as distinct cases: a few coincide with (a)/(b)). distinct = distinct (decoder, bytes, written-site) triples: (a),(d),(e) are injective enumerations, (b)/(c) are deduplicated by an exact set per decoder and against (a); non-trivial = all (every input is handed to the decoder, from a bytes.Reader and from a plain io.Reader)"
 	wd = engine.NewWatchdog(engine.Workers()+1, 20*time.Second, func(desc string) {
 		var c Case
 		json.Unmarshal([]byte(desc), &c)
@@ -534,17 +540,23 @@ func main() {
 		return
 	}
 	selftest()
-	L, N, M := 5, 5, 6
+	L, N, M, MW := 5, 5, 6, 4
 	if rep.Thorough() {
-		L, N, M = 7, 6, 8
+		L, N, M, MW = 7, 6, 8, 6
 	}
 	var jobs []func(slot int)
 	jobs = append(jobs, famB(L, rep.Thorough())...) // the heavy per-decoder jobs first
 	jobs = append(jobs, famCommands(M)...)
+	jobs = append(jobs, famCommandsWide(MW)...)
 	jobs = append(jobs, famJSON(N)...)
 	jobs = append(jobs, famA(L)...)
 	jobs = append(jobs, famInflated(4)...)
 	jobs = append(jobs, famReuse(rep.Thorough())...)
+	if rep.Thorough() {
+		jobs = append(jobs, famSweep(4200, 1100)...)
+	} else {
+		jobs = append(jobs, famSweep(600, 300)...)
+	}
 	engine.ParallelFor(len(jobs), func(slot, i int) { jobs[i](slot) })
 
 	var famAStrings int64
@@ -581,6 +593,8 @@ func main() {
 		}
 		return n
 	}())
+	rep.Count("famH_length_sweep_inputs", sweepInputs)
+	rep.Count("famH_length_sweep_sites", sweepSites)
 	rep.Count("seeds", seedsTotal)
 	rep.Count("seeds_accepted_by_go-mc", seedsAccepted)
 	rep.Count("seeds_with_restricted_positions", seedsRestricted)
@@ -667,9 +681,17 @@ func replay() {
 	if c.Kind == "command" {
 		for _, g := range graphs() {
 			if g.name == c.Graph {
-				fmt.Printf("replaying Graph.Execute(%q) on graph %s\n", c.Line, c.Graph)
+				line := c.Line
+				if c.LineHex != "" {
+					b, err := hex.DecodeString(c.LineHex)
+					if err != nil {
+						engine.HarnessError("bad line_hex: %v", err)
+					}
+					line = string(b)
+				}
+				fmt.Printf("replaying Graph.Execute(%q) on graph %s\n", line, c.Graph)
 				for i := 0; i < 5; i++ {
-					runCommand(0, g, c.Line)
+					runCommand(0, g, line)
 				}
 				rep.Eval(5)
 				rep.Finish()
